@@ -349,6 +349,8 @@ def exhaust(name, dep, vname="v", rec=None, save_when=strax.SaveWhen.ALWAYS, rec
 
         def compute(self, **kw):
             (x,) = [v for k, v in kw.items() if k not in ("start", "end", "chunk_i")]
+            if rec is not None:
+                rec.add(name, 0, len(x))
             r = np.zeros(len(x), dtype=ROWDT)
             r["time"], r["endtime"], r["v"] = x["time"], strax.endtime(x), len(x)
             return r
